@@ -62,14 +62,50 @@ type Engine struct {
 }
 
 func NewEngine(repo string) *Engine {
-	return &Engine{repo: repo, pkgs: map[string]*packages.Package{}, cs: NewContractSet(),
+	e := &Engine{repo: repo, pkgs: map[string]*packages.Package{}, cs: NewContractSet(),
 		funcDecls: map[string]*ast.FuncDecl{}, funcPkg: map[string]*packages.Package{},
 		trusted: map[string]bool{}, havocked: map[string]bool{}, rejected: map[string]string{},
 		globalsRO: map[types.Object]bool{}, usedLemmas: map[string]bool{}, usedContracts: map[string]bool{}, langUsed: map[string]bool{},
 		langs: NewLangEnv(), genInfo: map[string]*genInfo{}, effCache: map[string]*Contract{}}
+	e.langs.Resolve = e.resolveLang
+	return e
+}
+
+func unusedEngineCtor() *Engine {
+	return nil
 }
 
 const modulePath = "github.com/a-h/templ"
+
+// resolveLang: RE_<var> = the language of the regexp literal assigned to the
+// package-level variable <var> in one of the loaded packages.
+func (e *Engine) resolveLang(name string) (*Re, string, bool) {
+	if !strings.HasPrefix(name, "RE_") {
+		return nil, "", false
+	}
+	vn := strings.TrimPrefix(name, "RE_")
+	var paths []string
+	for p := range e.pkgs {
+		paths = append(paths, p)
+	}
+	sort.Strings(paths)
+	for _, p := range paths {
+		obj, ok := e.pkgs[p].Types.Scope().Lookup(vn).(*types.Var)
+		if !ok {
+			continue
+		}
+		pat, ok := e.regexpLiteral(obj)
+		if !ok {
+			continue
+		}
+		re, err := FromGoRegexp(pat)
+		if err != nil {
+			continue
+		}
+		return re, "(code) Go regexp " + strconvQuote(pat), true
+	}
+	return nil, "", false
+}
 
 func (e *Engine) Load(patterns ...string) error {
 	cfg := &packages.Config{
